@@ -456,7 +456,7 @@ Definition mrr_meta_ok (v : rrv) (dt : list Z) (x : rspec) (m : meta) : bool :=
 Definition mrr_spec0 (c : rnode) : rspec :=
   mk_rspec false (m_name (meta_of c)) (m_rr (meta_of c)) (m_target (meta_of c)) (mrr_mode c) 0 0 0 0 0 0.
 
-(* [budget]: levels left; [isroot]: the node is the root *)
+(* [budget]: recursion fuel (mrr_wf uses the height of the tree: no depth limit); [isroot]: the node is the root *)
 Fixpoint mrr_wf_node (v : rrv) (dt : list Z) (budget : nat) (isroot : bool) (n : rnode) : bool :=
   match budget with
   | O => false
@@ -493,7 +493,7 @@ Definition mrr_wf (dt : list Z) (s : rstate) : bool :=
   | _, RFile _ _ => false
   | v, RDir m _ _ =>
       Account.bytes_eqb (m_name m) [0] && negb (is_some (m_ce m)) &&
-      mrr_wf_node v dt 8 true (r_root s) && mrr_keys_apart (mrr_keys (r_root s)) &&
+      mrr_wf_node v dt (mrr_height (r_root s)) true (r_root s) && mrr_keys_apart (mrr_keys (r_root s)) &&
       (0 <=? r_ptr_ext s) && (mrr_layout_end s <=? 4294967296)
   end.
 
